@@ -174,18 +174,30 @@ func runC19R3(c *Ctx, r *Rep) {
 		if !ok {
 			return true
 		}
-		if fn := Callee(p.TypesInfo, call); fn != nil && fn.Name() == "RunFile" && len(call.Args) == 4 {
+		if fn := Callee(p.TypesInfo, call); fn != nil && (fn.Name() == "RunFile" || fn.Name() == "RunCode") && len(call.Args) == 4 && fn.Type().(*types.Signature).Recv() == nil {
 			found = true
 			id, ok := call.Args[3].(*ast.Ident)
 			r.check(ok && p.TypesInfo.Uses[id] == nameObj, "import|file module registered under the imported name", call.Pos(),
-				"RunFile receives the imported name as the module name",
-				"RunFile is given `"+exprStr(call.Args[3])+"` as the module name, not the imported name: the module is registered (and gets __name__) under a key the store lookup never uses")
+				fn.Name()+" receives the imported name as the module name",
+				fn.Name()+" is given `"+exprStr(call.Args[3])+"` as the module name, not the imported name: the module is registered (and gets __name__) under a key the store lookup never uses")
 		}
 		return true
 	})
 	if !found {
-		r.undecided("import|file module", fd.Pos(), "no RunFile call found; confirm how a source module is loaded and update the rule")
+		r.undecided("import|file module", fd.Pos(), "no RunFile/RunCode call found; confirm how a source module is loaded and update the rule")
 	}
+	// a module that cannot be found is an ImportError (raise-site census)
+	raises := false
+	ast.Inspect(fd.Body, func(n ast.Node) bool {
+		if call, ok := n.(*ast.CallExpr); ok && len(call.Args) >= 1 {
+			if fn := Callee(p.TypesInfo, call); fn != nil && fn.Name() == "ExceptionNewf" && exprStr(call.Args[0]) == "ImportError" {
+				raises = true
+			}
+		}
+		return true
+	})
+	r.check(raises, "import|missing module is ImportError", fd.Pos(), "ImportModuleLevelObject raises ImportError itself for a module that cannot be found",
+		"ImportModuleLevelObject has no ExceptionNewf(ImportError, …): a module that cannot be found surfaces as whatever the path resolution returns (FileNotFoundError), so `except ImportError` does not catch a missing module")
 }
 
 func runC19R4(c *Ctx, r *Rep) {
@@ -243,7 +255,7 @@ func init() {
 		Doc: "module registered before its code runs: the store's module table is written only by ModuleStore.NewModule (created = registered), and every function that creates a module and runs its code (the context's ModuleInit) creates it first",
 		Run: runC19R2})
 	register(&Rule{ID: "C19.R3", Prop: "C19", Floor: 3,
-		Doc: "ImportModuleLevelObject: the store is consulted first, by the name given; that name is never reassigned; a source module is run and registered under the same name (so the next import finds it)",
+		Doc: "ImportModuleLevelObject: the store is consulted first, by the name given; that name is never reassigned; a source module is run and registered under the same name (so the next import finds it); a module that cannot be found is reported by an ImportError raised here",
 		Run: runC19R3})
 	register(&Rule{ID: "C19.R4", Prop: "C19", Floor: 2,
 		Doc: "from m import *: names come from __all__ when present and are bound as listed; the skip-leading-underscore filter is applied only in the branch without __all__",
